@@ -3,6 +3,7 @@ package interp
 // Library intrinsics: strings, strconv, bytes, sort, hex, hashes, errors.
 
 import (
+	"os"
 	"bytes"
 	"crypto/sha256"
 	"encoding/base64"
@@ -654,7 +655,10 @@ func hashBytes(fr *frame, fn string, in []value) []byte {
 		if h.fn != fn {
 			continue
 		}
-		c := strEqTerm(fr, h.in, sv)
+		c := hashInputEq(fr, h.in, sv)
+		if os.Getenv("SYMGO_DEBUG") == "hash" && c.IsFalse() {
+			fmt.Fprintf(os.Stderr, "hash inputs differ:\n  A=%s\n  B=%s\n", toString(h.in), toString(sv))
+		}
 		if ps.NoHashFork && !c.IsConst() {
 			// stated bound: two hash inputs that can differ are taken to differ (the
 			// "equal inputs" branch is explored only when the path condition forces it)
@@ -756,4 +760,19 @@ func init() {
 		reg(recv+"Size", func(fr *frame, args []value) value { return 32 })
 		reg(recv+"BlockSize", func(fr *frame, args []value) value { return 64 })
 	}
+}
+
+// hashInputEq compares two hash inputs; an opaque codec blob is taken to differ from any
+// input that is not a blob at the same position (stated assumption of the hash model).
+func hashInputEq(fr *frame, a, b value) (c *term.Term) {
+	defer func() {
+		if r := recover(); r != nil {
+			if ap, ok := r.(*abortPath); ok && ap.Kind == "unsupported" && strings.Contains(ap.Reason, "string equality") {
+				c = term.False
+				return
+			}
+			panic(r)
+		}
+	}()
+	return strEqTerm(fr, a, b)
 }
